@@ -215,3 +215,53 @@ impl CQueueLLAllocator {
         allocator.add_free_region(ptr.as_ptr() as usize, size);
     }
 }
+
+// Verification hooks (read-only introspection), compiled only with
+// `--cfg petrichorit_des_verif`.
+#[cfg(petrichorit_des_verif)]
+pub mod verif {
+    use super::{CQueueLLAllocatorInner, ListNode};
+    use std::alloc::Layout;
+
+    /// A read-only description of the allocator state.
+    #[derive(Debug, Clone)]
+    pub struct AllocSnapshot {
+        pub page_size: usize,
+        pub pages: Vec<usize>,
+        /// Free regions `(start address, size)` in list order.
+        pub free: Vec<(usize, usize)>,
+        /// `false` if the walk over the free list hit the iteration bound.
+        pub free_walk_terminated: bool,
+        pub allocated_mem: usize,
+    }
+
+    impl CQueueLLAllocatorInner {
+        #[must_use]
+        pub fn verif_snapshot(&self, bound: usize) -> AllocSnapshot {
+            let mut free = Vec::new();
+            let mut cur: Option<&ListNode> = self.head.next.as_deref();
+            let mut terminated = true;
+            while let Some(node) = cur {
+                if free.len() >= bound {
+                    terminated = false;
+                    break;
+                }
+                free.push((node.start_addr(), node.size));
+                cur = node.next.as_deref();
+            }
+            AllocSnapshot {
+                page_size: self.page_size,
+                pages: self.pages.iter().map(|p| *p as usize).collect(),
+                free,
+                free_walk_terminated: terminated,
+                allocated_mem: self.allocated_mem,
+            }
+        }
+
+        /// The `(size, align)` the allocator actually uses for a layout.
+        #[must_use]
+        pub fn verif_size_align(layout: Layout) -> (usize, usize) {
+            Self::size_align(layout)
+        }
+    }
+}
